@@ -1,6 +1,8 @@
 import UtilModel.RefCount.ConsProps
 import UtilModel.RefCount.ConsRelA
 import UtilModel.RefCount.ConsRelB
+import UtilModel.RefCount.ConsRelC
+import UtilModel.RefCount.ConsRelD
 open UtilModel UtilModel.RefCount UtilModel.RefCount.Cons
 #print axioms UtilModel.accepts_sound
 #print axioms UtilModel.accepted_satisfies
@@ -21,3 +23,8 @@ open UtilModel UtilModel.RefCount UtilModel.RefCount.Cons
 #print axioms RefCount.Cons.rb_step
 #print axioms RefCount.Cons.c10_result_obs
 #print axioms RefCount.Cons.c10_cancel_obs
+#print axioms RefCount.Cons.c10_released_obs
+#print axioms RefCount.Cons.rd_step
+#print axioms RefCount.Cons.c10_fires_obs
+#print axioms RefCount.Cons.c10_alive_obs
+#print axioms RefCount.Cons.c10_obs
